@@ -8,7 +8,7 @@ out=/tmp/refac-$id
 mkdir -p $out
 prop=$(jq -c "select(.id==\"$id\")" /verif/properties.jsonl)
 cat <<P
-You are working alone in a scratch git worktree of the WuKongIM repository (a distributed instant-messaging server written in Go) at $wt. The sandbox has no network; the module builds and tests offline with the plain \`go\` command (e.g. \`cd $wt && go build ./... && go test -count=1 ./pkg/some/package/...\`). Work ONLY inside $wt and $out. Never read or write /repo or /verif. Do NOT use \`git stash\` (it is shared between worktrees): to set a change aside use \`git diff > file && git checkout -- .\`.
+You are working alone in a scratch git worktree of the WuKongIM repository (a distributed instant-messaging server written in Go) at $wt. The sandbox has no network; the module builds and tests offline with the plain \`go\` command (e.g. \`cd $wt && go build ./... && go test -count=1 -p 2 ./pkg/some/package/...\`; the machine is shared - always pass \`-p 2\` to go test and test only the packages you touched). Work ONLY inside $wt and $out. Never read or write /repo or /verif. Do NOT use \`git stash\` (it is shared between worktrees): to set a change aside use \`git diff > file && git checkout -- .\`.
 
 Here is a semantic property that the repository satisfies (JSON record):
 
@@ -18,7 +18,7 @@ YOUR TASK: act as a careful maintainer doing routine clean-up. Produce SIX indep
 
 Hard constraints for all six: do not rename, remove or change the signature of any function, method, type, struct field, package-level variable or constant (exported or not) - other code and tools refer to them by name; do not move code to a different file or package; do not edit tests. Everything else inside function bodies is fair game.
 
-Make the six of graded intrusiveness, two per level, each touching the property's core mechanism (not a peripheral helper):
+Make the six of graded intrusiveness (${RF_LEVELS:-two per level}), each touching the property's core mechanism (not a peripheral helper) and each in a DIFFERENT core function where the property has several:
   Level 1 (a, b) - cosmetic inside a body: rename local variables (not parameters), introduce or remove a temporary for a sub-expression, reorder two statements that are independent of each other, add a comment, add a debug log line or a metrics counter increment on some branch, replace \`x += 1\` by \`x++\`, \`len(s) == 0\` by \`len(s) < 1\` for an int, etc.
   Level 2 (c, d) - reshape control flow inside one function without changing its decisions: turn if/else into early return or the reverse, invert a condition and swap the branches, split \`if a && b\` into nested ifs or merge nested ifs, switch <-> if-chain, \`for i := range\` <-> classic three-clause loop, hoist a loop-invariant computation, replace \`defer mu.Unlock()\` by explicit unlocks on every path or the reverse (only when exactly equivalent), use a named result.
   Level 3 (e, f) - move code across a function boundary while keeping every existing function: extract a block of one of the core functions into a NEW unexported helper in the same file (e.g. the validation prefix into \`func validateX(...) error\`, or a loop body into a helper) and call it, or inline an existing small helper's body at one of its call sites (keeping the helper itself for its other callers).
